@@ -23,5 +23,8 @@ VOCAB = [
     "A", "_offset_", "zzz", "_x_", "uint", "---", "--", "=", "\n", "#", "\t", "\r\n", "\x00", "é",
     "010", "08", "007", "0_1_2", "00", "1__0", "1e", "1.e5", "0.1.2", "1_",
     "(-8)**(1/3)", "(10**400)**0.5", "1/0", "1%0", "{}", "{1,true}", "ns.Svc.1.0._extent_",
+    "dep2.Bad.1.0",      # a dependency (in a lookup directory) that is itself faulty: it has no @sealed / @extent
 ]
+BAD_DEP = "dep2.Bad.1.0"
+LOOKUP_FILES = {"lk/dep2/Bad.1.0.dsdl": "uint8 a\n"}
 DEP_FILES = {"ns/Dep.1.0.dsdl": "uint8 K = 3\nuint8 v\n@sealed\n", "ns/Svc.1.0.dsdl": "@sealed\n---\n@sealed\n"}
